@@ -104,6 +104,13 @@ Fixpoint aliases_disjoint (cls : list unit) : bool :=
 Definition nonempty_aliases (cls : list unit) : bool :=
   forallb (fun u => match ualiases u with [] => false | _ => true end) cls.
 
+(* ---------- relative closeness (own helper; lib `close` is absolute below 1) ---------- *)
+(* |a-b| <= tol*|b| : purely relative, so a factor of 1e-47 is checked to the same number of digits
+   as a factor of 1e+10; b = 0 demands a = 0 exactly. *)
+Definition rclose (tol a b : Qc) : bool := Qcleb (Qcabs (a - b)%Qc) (tol * Qcabs b)%Qc.
+(* |a-b| <= tol*s for an explicit scale s (used where cancellation makes the result small) *)
+Definition sclose (tol s a b : Qc) : bool := Qcleb (Qcabs (a - b)%Qc) (tol * s)%Qc.
+
 (* ---------- the declared factor of every unit (spec side of factors_match_constants) ---------- *)
 Fixpoint lookupc (k : string) (l : list (string * Qc)) : option Qc :=
   match l with [] => None | (k', v) :: r => if String.eqb k k' then Some v else lookupc k r end.
@@ -117,58 +124,210 @@ Definition decl_value (d : decl) : option Qc :=
   | DComposite tops pers => Some (prodq (map utimes tops) / prodq (map utimes pers))%Qc
   | DExpr => None
   end.
-Definition rel_tol : Qc := qc 1 1000000000000.   (* 1e-12: float rounding of composite products *)
+Definition rel_tol : Qc := qc 1 1000000000000.   (* 1e-12 RELATIVE: float rounding of composite products *)
+(* consistency of a unit with the way units.py declares it (constant / literal / composite product).
+   For DConst/DLit both sides are folded by the translator from the same expression: the content is
+   in the DComposite rows and in the runtime comparison `check_class` (generated = runtime objects). *)
 Definition factor_ok (e : unit * decl * decl) : bool :=
   let '(u, dt, da) := e in
   match decl_value dt, decl_value da with
-  | Some t, Some a => close rel_tol (utimes u) t && Qceqb (uadd u) a
+  | Some t, Some a => rclose rel_tol (utimes u) t && Qceqb (uadd u) a
   | _, _ => false
   end.
 
-(* independent reference: what each unit's factor must be in terms of the package's declared
-   constants (hand-written from the physical meaning of the unit; keyed by the unit's name). *)
+(* ---------- independent reference, derived from what each unit's NAME means ----------
+   Every value class has a base unit (factor 1): Ha, Å, amu, rad, cm^-1, mb, kelvin and products of
+   those.  A unit's factor is "how many of this unit make one base unit".  The reference below is
+   NOT read off units.py: it lists, per unit name, the physical dimension the name states
+   (energy unit, length unit ^ power, mass unit ^ power) and derives the factor from the primitive
+   factors, which are the constants the package declares (constants.py):
+       1 Ha = ha_to_eV eV = ha_to_kJmol kJ/mol = ha_to_kcalmol kcal/mol = ha_to_kJmol*1000/n_a J
+       1 Å  = 1/a0_to_ang bohr = 0.1 nm = 100 pm = 1e-10 m
+       1 amu = amu_to_kg kg = amu_to_me m_e                                                   *)
 Definition cst (k : string) : Qc := match lookupc k constants with Some v => v | None => Q2Qc 0 end.
-Definition expected_factor (name : string) : option (Qc * Qc) :=   (* (times, add) *)
-  let z := Q2Qc 0 in let one := Q2Qc 1 in
-  if String.eqb name "Ha" then Some (one, z)
-  else if String.eqb name "eV" then Some (one / cst "eV_to_ha", z)%Qc
-  else if String.eqb name "kJ mol-1" then Some (cst "ha_to_kJmol", z)
-  else if String.eqb name "kcal mol-1" then Some (cst "ha_to_kcalmol", z)
-  else if String.eqb name "J" then Some (cst "ha_to_kJmol" * qc 1000 1 / cst "n_a", z)%Qc
-  else if String.eqb name "rad" then Some (one, z)
-  else if String.eqb name "°" then Some (cst "rad_to_deg", z)
-  else if String.eqb name "Å" then Some (one, z)
-  else if String.eqb name "bohr" then Some (one / cst "a0_to_ang", z)%Qc
-  else if String.eqb name "nm" then Some (qc 1 10, z)
-  else if String.eqb name "pm" then Some (qc 100 1, z)
-  else if String.eqb name "m" then Some (qc 1 10000000000, z)
-  else if String.eqb name "Å amu^1/2" then Some (one, z)
-  else if String.eqb name "amu" then Some (one, z)
-  else if String.eqb name "kg" then Some (cst "amu_to_kg", z)
-  else if String.eqb name "m_e" then Some (cst "amu_to_me", z)
-  else if String.eqb name "amu Å^2" then Some (one, z)
-  else if String.eqb name "kg m^2" then Some (cst "amu_to_kg" * qc 1 10000000000 * qc 1 10000000000, z)%Qc
-  else if String.eqb name "Ha(Å)^-1" then Some (one, z)
-  else if String.eqb name "Ha(bohr)^-1" then Some (cst "a0_to_ang", z)
-  else if String.eqb name "eV(Å)^-1" then Some (one / cst "eV_to_ha", z)%Qc
-  else if String.eqb name "kcal mol-1(Å)^-1" then Some (cst "ha_to_kcalmol", z)
-  else if String.eqb name "Ha Å^-2" then Some (one, z)
-  else if String.eqb name "Ha a0^-2" then Some (cst "a0_to_ang" * cst "a0_to_ang", z)%Qc
-  else if String.eqb name "J ang^-2" then Some (cst "ha_to_kJmol" * qc 1000 1 / cst "n_a", z)%Qc
-  else if String.eqb name "J m^-2" then Some (cst "ha_to_kJmol" * qc 1000 1 / cst "n_a" * qc 100000000000000000000 1, z)%Qc
-  else if String.eqb name "J m^-2 kg^-1" then Some (cst "ha_to_kJmol" * qc 1000 1 / cst "n_a" / cst "amu_to_kg", z)%Qc
-  else if String.eqb name "cm^-1" then Some (one, z)
-  else if String.eqb name "s^-1" then Some (qc 29979245800 1, z)
-  else if String.eqb name "byte" then Some (qc 1000000 1, z)
-  else if String.eqb name "mb" then Some (one, z)
-  else if String.eqb name "gb" then Some (qc 1 1000, z)
-  else if String.eqb name "tb" then Some (qc 1 1000000, z)
-  else if String.eqb name "kelvin" then Some (one, z)
-  else if String.eqb name "celsius" then Some (one, qc 27315 100)
+Definition pi_q : Qc := qc 314159265358979323846 100000000000000000000.   (* pi to 1e-20 *)
+Definition f_energy (n : string) : option Qc :=
+  if String.eqb n "Ha" then Some (Q2Qc 1)
+  else if String.eqb n "eV" then Some (cst "ha_to_eV")
+  else if String.eqb n "kJ mol-1" then Some (cst "ha_to_kJmol")
+  else if String.eqb n "kcal mol-1" then Some (cst "ha_to_kcalmol")
+  else if String.eqb n "J" then Some (cst "ha_to_kJmol" * qc 1000 1 / cst "n_a")%Qc
   else None.
-Definition ref_tol : Qc := qc 1 1000000000.   (* 1e-9 relative: float rounding of products/quotients *)
+Definition f_length (n : string) : option Qc :=
+  if String.eqb n "Å" then Some (Q2Qc 1)
+  else if String.eqb n "bohr" then Some (Q2Qc 1 / cst "a0_to_ang")%Qc
+  else if String.eqb n "nm" then Some (qc 1 10)
+  else if String.eqb n "pm" then Some (qc 100 1)
+  else if String.eqb n "m" then Some (qc 1 10000000000)
+  else None.
+Definition f_mass (n : string) : option Qc :=
+  if String.eqb n "amu" then Some (Q2Qc 1)
+  else if String.eqb n "kg" then Some (cst "amu_to_kg")
+  else if String.eqb n "m_e" then Some (cst "amu_to_me")
+  else None.
+Definition qpow (x : Qc) (k : Z) : Qc :=
+  match k with
+  | Z0 => Q2Qc 1
+  | Zpos p => Qcpower x (Pos.to_nat p)
+  | Zneg p => (/ Qcpower x (Pos.to_nat p))%Qc
+  end.
+(* what the NAME of a unit says: energy unit (or none) x length^kl x mass^km, or a stand-alone
+   (times, add) for the kinds that are not products of energy/length/mass *)
+Inductive dim :=
+| Dim (e : string) (l : string) (kl : Z) (m : string) (km : Z)   (* "" = absent *)
+| Alone (t a : Qc).
+Definition dim_of (name : string) : option dim :=
+  let z := Q2Qc 0 in let one := Q2Qc 1 in
+  let E n := Some (Dim n "" 0 "" 0) in let L n := Some (Dim "" n 1 "" 0) in let M n := Some (Dim "" "" 0 n 1) in
+  if String.eqb name "Ha" then E "Ha" else if String.eqb name "eV" then E "eV"
+  else if String.eqb name "kJ mol-1" then E "kJ mol-1" else if String.eqb name "kcal mol-1" then E "kcal mol-1"
+  else if String.eqb name "J" then E "J"
+  else if String.eqb name "Å" then L "Å" else if String.eqb name "bohr" then L "bohr"
+  else if String.eqb name "nm" then L "nm" else if String.eqb name "pm" then L "pm" else if String.eqb name "m" then L "m"
+  else if String.eqb name "amu" then M "amu" else if String.eqb name "kg" then M "kg" else if String.eqb name "m_e" then M "m_e"
+  else if String.eqb name "amu Å^2" then Some (Dim "" "Å" 2 "amu" 1)
+  else if String.eqb name "kg m^2" then Some (Dim "" "m" 2 "kg" 1)
+  else if String.eqb name "Ha(Å)^-1" then Some (Dim "Ha" "Å" (-1) "" 0)
+  else if String.eqb name "Ha(bohr)^-1" then Some (Dim "Ha" "bohr" (-1) "" 0)
+  else if String.eqb name "eV(Å)^-1" then Some (Dim "eV" "Å" (-1) "" 0)
+  else if String.eqb name "kcal mol-1(Å)^-1" then Some (Dim "kcal mol-1" "Å" (-1) "" 0)
+  else if String.eqb name "Ha Å^-2" then Some (Dim "Ha" "Å" (-2) "" 0)
+  else if String.eqb name "Ha a0^-2" then Some (Dim "Ha" "bohr" (-2) "" 0)
+  else if String.eqb name "J ang^-2" then Some (Dim "J" "Å" (-2) "" 0)
+  else if String.eqb name "J m^-2" then Some (Dim "J" "m" (-2) "" 0)
+  else if String.eqb name "J m^-2 kg^-1" then Some (Dim "J" "m" (-2) "kg" (-1))
+  else if String.eqb name "J ang^-2 kg^-1" then Some (Dim "J" "Å" (-2) "kg" (-1))
+  (* kinds with a single non-base unit or no physical constant involved *)
+  else if String.eqb name "Å amu^1/2" then Some (Alone one z)
+  else if String.eqb name "rad" then Some (Alone one z)
+  else if String.eqb name "°" then Some (Alone (qc 180 1 / pi_q)%Qc z)          (* 180/pi degrees per radian *)
+  else if String.eqb name "cm^-1" then Some (Alone one z)
+  else if String.eqb name "s^-1" then Some (Alone (qc 29979245800 1) z)          (* c in cm/s (exact SI) *)
+  else if String.eqb name "mb" then Some (Alone one z)
+  else if String.eqb name "byte" then Some (Alone (qc 1000000 1) z)
+  else if String.eqb name "gb" then Some (Alone (qc 1 1000) z)
+  else if String.eqb name "tb" then Some (Alone (qc 1 1000000) z)
+  else if String.eqb name "kelvin" then Some (Alone one z)
+  else if String.eqb name "celsius" then Some (Alone one (qc 27315 100))          (* K = C + 273.15 *)
+  else None.
+Definition opt_or_one (f : string -> option Qc) (n : string) : option Qc :=
+  if String.eqb n "" then Some (Q2Qc 1) else f n.
+Definition expected_factor (name : string) : option (Qc * Qc) :=   (* (times, add) *)
+  match dim_of name with
+  | Some (Alone t a) => Some (t, a)
+  | Some (Dim e l kl m km) =>
+      match opt_or_one f_energy e, opt_or_one f_length l, opt_or_one f_mass m with
+      | Some fe, Some fl, Some fm => Some (fe * qpow fl kl * qpow fm km, Q2Qc 0)%Qc
+      | _, _, _ => None
+      end
+  | None => None
+  end.
+Definition ref_tol : Qc := qc 1 1000000000000.   (* 1e-12 RELATIVE: float rounding of a few products/quotients *)
 Definition matches_reference (u : unit) : bool :=
   match expected_factor (uname u) with
-  | Some (t, a) => close ref_tol (utimes u) t && close ref_tol (uadd u) a
+  | Some (t, a) => rclose ref_tol (utimes u) t && rclose ref_tol (uadd u) a
   | None => false
   end.
+(* the one unit whose NAME and factor disagree on the unchanged tree (finding
+   `factor:J m^-2 kg^-1|has-factor-of-J-ang^-2-kg^-1`, units.py:262): kept out of the universally
+   quantified theorem and characterised exactly by `misnamed_ok` *)
+Definition misnamed (name : string) : bool := String.eqb name "J m^-2 kg^-1".
+Definition misnamed_ok (u : unit) : bool :=   (* right, or exactly the factor of J ang^-2 kg^-1 *)
+  matches_reference u ||
+  match expected_factor "J ang^-2 kg^-1" with Some (t, _) => rclose ref_tol (utimes u) t && Qceqb (uadd u) (Q2Qc 0) | None => false end.
+
+(* the redundant constants of constants.py agree with each other (the table is read from /repo) *)
+Definition consts_consistent : bool :=
+  let one := Q2Qc 1 in
+  rclose rel_tol (cst "ha_to_J") (cst "ha_to_kJmol" * qc 1000 1 / cst "n_a")%Qc &&
+  rclose rel_tol (cst "J_to_ha" * cst "ha_to_J")%Qc one &&
+  rclose rel_tol (cst "ha_to_eV" * cst "eV_to_ha")%Qc one &&
+  rclose rel_tol (cst "ang_to_a0" * cst "a0_to_ang")%Qc one &&
+  rclose rel_tol (cst "a0_to_m") (cst "a0_to_ang" * cst "ang_to_m")%Qc &&
+  rclose rel_tol (cst "ang_to_nm") (qc 1 10) && rclose rel_tol (cst "ang_to_pm") (qc 100 1) &&
+  rclose rel_tol (cst "ang_to_m") (qc 1 10000000000) &&
+  rclose rel_tol (cst "rad_to_deg") (qc 180 1 / pi_q)%Qc &&
+  rclose rel_tol (cst "per_cm_to_hz") (qc 29979245800 1) &&
+  (* kcal_to_kJ = 4.184 against the ratio of two constants quoted to six figures: 2e-6 *)
+  rclose (qc 2 1000000) (cst "ha_to_kJmol" / cst "ha_to_kcalmol")%Qc (cst "kcal_to_kJ").
+
+(* ---------- decidable equality of units; the flat list of all declared units ---------- *)
+Fixpoint list_eqb' {A} (eqb : A -> A -> bool) (a b : list A) : bool :=
+  match a, b with
+  | [], [] => true
+  | x :: a', y :: b' => eqb x y && list_eqb' eqb a' b'
+  | _, _ => false
+  end.
+Definition ueqb (u v : unit) : bool :=
+  String.eqb (uname u) (uname v) && list_eqb' String.eqb (ualiases u) (ualiases v) &&
+  Qceqb (utimes u) (utimes v) && Qceqb (uadd u) (uadd v).
+Definition all_units : list unit := map (fun e => fst (fst e)) declared.
+Definition mem_unit (u : unit) (l : list unit) : bool := existsb (ueqb u) l.
+
+(* ---------- arrays with explicit object state: ValueArray.to / to_ / __eq__ ---------- *)
+Record arr := mkArr { axs : list Qc; aunit : unit }.
+Inductive aret :=
+| RSame            (* the very same object is returned (values.py:45-46: `return value`) *)
+| RNew (r : arr)   (* a fresh array *)
+| RNone            (* to_ returns None *)
+| RErr.            (* TypeError *)
+(* ValueArray.to(name): (the source object afterwards, what is returned) *)
+Definition arr_to (cls : list unit) (s : arr) (name : string) : arr * aret :=
+  if has_alias name (aunit s) then (s, RSame)
+  else match find_unit cls name with
+       | Some v => (s, RNew (mkArr (map (fun x => conv x (aunit s) v) (axs s)) v))
+       | None => (s, RErr)
+       end.
+(* ValueArray.to_(name): converts the object itself *)
+Definition arr_to_ (cls : list unit) (s : arr) (name : string) : arr * aret :=
+  if has_alias name (aunit s) then (s, RNone)
+  else match find_unit cls name with
+       | Some v => (mkArr (map (fun x => conv x (aunit s) v) (axs s)) v, RNone)
+       | None => (s, RErr)
+       end.
+(* the array one holds after  b = a.to(name)  (b is a itself in the same-unit case) *)
+Definition arr_result (s : arr) (r : aret) : option arr :=
+  match r with RSame => Some s | RNew b => Some b | RNone => None | RErr => None end.
+
+(* ValueArray.__eq__ (values.py:621-636): other.to(self.units), same shape, np.allclose with
+   atol = rtol = 1e-64 *)
+Definition tiny : Qc := Q2Qc (1 # (10 ^ 64)).
+Fixpoint all_close (a b : list Qc) : bool :=
+  match a, b with
+  | [], [] => true
+  | x :: a', y :: b' => Qcleb (Qcabs (x - y)%Qc) (tiny + tiny * Qcabs y)%Qc && all_close a' b'
+  | _, _ => false      (* different shape *)
+  end.
+Definition arr_eq (cls : list unit) (a b : arr) : option bool :=
+  match arr_result b (snd (arr_to cls b (uquery (aunit a)))) with
+  | Some b' => Some (all_close (axs a) (axs b'))
+  | None => None
+  end.
+(* numpy arithmetic / ordering of two ValueArrays (no override in values.py): elementwise on the raw
+   numbers, the result carries the LEFT operand's units (__array_finalize__) *)
+Fixpoint zipq {B} (f : Qc -> Qc -> B) (a b : list Qc) : list B :=
+  match a, b with x :: a', y :: b' => f x y :: zipq f a' b' | _, _ => [] end.
+Definition arr_add (a b : arr) : arr := mkArr (zipq Qcplus (axs a) (axs b)) (aunit a).
+Definition arr_sub (a b : arr) : arr := mkArr (zipq Qcminus (axs a) (axs b)) (aunit a).
+Definition arr_lt (a b : arr) : list bool := zipq Qcltb (axs a) (axs b).
+(* Value op ndarray (values.py:216-217, 246-247): `other + float(self)`, `float(self) - other` *)
+Definition va_add (a : value) (b : arr) : arr := mkArr (map (fun y => (y + vx a)%Qc) (axs b)) (aunit b).
+Definition va_sub (a : value) (b : arr) : arr := mkArr (map (fun y => (vx a - y)%Qc) (axs b)) (aunit b).
+
+(* ---------- Energy.__eq__ (values.py:332-349) ---------- *)
+Definition tol_ha : Qc := qc 159 10000000.   (* 0.0000159 *)
+(* `sub` = isinstance(other, self.__class__) *)
+Definition e_eq (cls : list unit) (sub : bool) (a b : value) : option bool :=
+  if negb sub then Some false
+  else match to_name cls b "ha", to_name cls a "ha" with
+       | Some y, Some x => Some (Qcltb (Qcabs (vx y - vx x)%Qc) tol_ha)
+       | _, _ => None
+       end.
+
+(* ---------- right operand of a proper SUBCLASS: CPython tries the reflected method first ----------
+   Energy(x) < PotentialEnergy(y)  is evaluated as  PotentialEnergy.__gt__(y, x), i.e. x is converted
+   into y's unit *)
+Definition vs_lt (cls : list unit) (a b : value) : option bool := v_gt cls b a.
+Definition vs_gt (cls : list unit) (a b : value) : option bool := v_lt cls b a.
+(* float - Value: no __rsub__, float.__sub__ gives a bare float *)
+Definition fv_sub (y : Qc) (a : value) : Qc := (y - vx a)%Qc.
